@@ -242,7 +242,9 @@ def quick_programs():
     rms = [RM(fn="s_only", on="success"), RM(fn="e_only", on="error"), RM(fn="alw", on="always"), RM(fn="dflt", on=None),
            RM(fn="both_s", handlers=("both",), on="success", data="raw,opt"), RM(fn="both_e", handlers=("both",), on="error"),
            RM(fn="multi_s", handlers=("m1", "m2"), on="success"), RM(fn="m1_e", handlers=("m1",), on="error"),
-           RM(fn="multi_a", handlers=("m3", "m4"), on="always")]
+           RM(fn="multi_a", handlers=("m3", "m4"), on="always"),
+           # a method that completes another method's pair with its first name and opens a name of its own with its second
+           RM(fn="sw_ok", handlers=("swap",), on="success"), RM(fn="sw_fail", handlers=("swap", "refund"), on="error")]
     out.append(("rtables", rms, {"tables"}))
     # payload signatures
     rms = [RM(fn="p_raw", on="always"), RM(fn="p_one", on="always", payload=("u32",)), RM(fn="p_two", on="always", payload=("u32", "String")),
